@@ -64,6 +64,9 @@ MUTANTS = [
     ("gnm-guard", N, "        if key < 0:\n            # null group key: belongs to no group and must not touch group state\n            continue\n", "", None, "group_nearby_members", "null-key rows update the last group"),
     ("ffc-ge", CO, "            if cum_length > start:\n", "            if cum_length >= start:\n", None, "_find_first_chunk_in_slice", "a chunk that ends exactly at the first selected row is taken as the first chunk of the slice"),
     ("ffc-negstart", CO, "            start = len(self) + mask.start\n", "            start = len(self) - mask.start\n", None, "_find_first_chunk_in_slice[start=int", "negative slice start resolved with the wrong sign"),
+    ("cik-nooffset", CO, "                    pointer = self._group_key_pointers[first_chunk_in + i]\n", "                    pointer = self._group_key_pointers[i]\n", None, "GroupBy.count_ikey[chunked key,pointers=tables", "a slice mask that starts in a later chunk pairs the key chunks with the pointer tables of the leading chunks"),
+    ("cik-assign", CO, "                    count[pointer] += c\n", "                    count[pointer] = c\n", None, "GroupBy.count_ikey[chunked key,pointers=tables", "counts of later chunks overwrite those of earlier ones"),
+    ("cik-bound", CO, "                    c = numba_funcs.group_size(chunk, len(pointer), mask=m)\n", "                    c = numba_funcs.group_size(chunk, self.ngroups, mask=m)\n", None, "GroupBy.count_ikey[chunked key,pointers=tables", "local counts sized by the global number of groups (shape mismatch with the pointer table)"),
     ("isnull-int", U, "            return x == MIN_INT\n", "            return x <= MIN_INT + 1\n", None, "jit_is_null.is_null#1", "a second integer value is read as null"),
     ("isnull-neg", U, "        out[i] = is_null(arr[i])", "        out[i] = not is_null(arr[i])", None, "arr_is_null", "inverted"),
 ]
